@@ -520,6 +520,15 @@ class Guards:
             ops = spec.find(e, self.ctx, self.env)
             if ops:
                 return dict(ops=ops)
+            # `match x { 0 => .., _ => .. }`: a switch on the integer itself is the comparison `x == value`
+            t = self.body.blocks[b]["t"]
+            if t.get("dty") not in (None, "bool") and e[0] != "discr":
+                for A, B in ((spec.A, spec.B), (spec.B, spec.A)):
+                    lits = [p for p in B if isinstance(p, str) and p.startswith("lit:") and p[4:].lstrip("-").isdigit()]
+                    if len(B) == 1 and len(lits) == 1 and A and has_all(self.ctx.leaves(e, self.env), A):
+                        v = int(lits[0][4:])
+                        if v in [tv for tv, _ in t["targets"]]:
+                            return dict(intswitch=v)
             if self.via_callee(e, spec):
                 return dict(via_callee=True)
             return None
@@ -583,6 +592,12 @@ class Guards:
                                 okp = False
                     if not okp:
                         guards[b] = ([], dict(bad_polarity=True, ops=info["ops"]))
+                        spec = gspec
+                        continue
+                if isinstance(spec, Cmp) and spec.pass_op and "intswitch" in info:
+                    okp = all(("Eq" if lab == info["intswitch"] else "Ne") == spec.pass_op for d, lab in passing)
+                    if not okp:
+                        guards[b] = ([], dict(bad_polarity=True, ops=["switch on the value"]))
                         spec = gspec
                         continue
                 if isinstance(spec, BoolIs):
